@@ -7,6 +7,8 @@ static int impl_eifunc_3(void){ return 29; } static void *res_eifunc_3(void){ re
 extern int lifunc_4(void); extern void *addr_lifunc_4(void); int (*volatile fp_lifunc_4)(void) = lifunc_4;
 extern int lifunc_5(void); extern void *addr_lifunc_5(void); int (*volatile fp_lifunc_5)(void) = lifunc_5;
 extern int lifunc_6(void); extern void *addr_lifunc_6(void); int (*volatile fp_lifunc_6)(void) = lifunc_6;
+extern int lalias_st_7; extern void *addr_lalias_st_7(void); extern void *waddr_lalias_st_7(void); extern int read_lalias_st_7(void); extern void write_lalias_st_7(int);
+extern int lalias_multi_8[]; extern void *addr_lalias_multi_8(void); extern void *waddr_lalias_multi_8(void); extern int read_lalias_multi_8(void); extern void write_lalias_multi_8(int);
 int main(void){
     if ((void*)lfunc_0 != addr_lfunc_0()) fail("lfunc_0: exe vs defining library");
     if ((void*)lfunc_0 != l1_addr_lfunc_0()) fail("lfunc_0: exe vs lib1");
@@ -35,4 +37,12 @@ int main(void){
     if ((void*)lifunc_6 != addr_lifunc_6()) fail("lifunc_6: library ifunc address exe vs library");
     if ((void*)fp_lifunc_6 != (void*)lifunc_6) fail("lifunc_6: library ifunc address data vs code in exe");
     if (lifunc_6() != 46 || fp_lifunc_6() != 46) fail("lifunc_6: ifunc call result");
+    if ((void*)&lalias_st_7 != addr_lalias_st_7() || (void*)&lalias_st_7 != waddr_lalias_st_7()) fail("lalias_st_7: symbol in exe vs its alias used by the library");
+    if (lalias_st_7 != 7 || read_lalias_st_7() != 7) fail("lalias_st_7: initial value");
+    lalias_st_7 = 1007; if (read_lalias_st_7() != 1007) fail("lalias_st_7: write in exe not seen by the library through the alias");
+    write_lalias_st_7(14); if (lalias_st_7 != 14) fail("lalias_st_7: write by the library through the alias not seen in exe");
+    if ((void*)lalias_multi_8 != addr_lalias_multi_8() || (void*)lalias_multi_8 != waddr_lalias_multi_8()) fail("lalias_multi_8: symbol in exe vs its alias used by the library");
+    if (lalias_multi_8[0] != 0 || read_lalias_multi_8() != 0) fail("lalias_multi_8: initial value");
+    lalias_multi_8[0] = 1056; if (read_lalias_multi_8() != 1056) fail("lalias_multi_8: write in exe not seen by the library through the alias");
+    write_lalias_multi_8(63); if (lalias_multi_8[0] != 63) fail("lalias_multi_8: write by the library through the alias not seen in exe");
     if (!bad) printf("OK\n"); return bad ? 1 : 0; }
